@@ -17,9 +17,11 @@ SPEC = {
                   "statement was refuted three times on the real code; ONE IS FIXED (/repo 9d3a892): in compressed caches the "
                   "temporary of a store in flight was recognised but not protected - Store now marks it, C14_store_tmp_protected and "
                   "C14_inflight_tmp_never_evicted are full for both modes, the old witness is conditional on the old fact value.  "
-                  "Still open: the isMarked test and the rename are "
-                  "two steps, so an entry retrieved in between is removed (C14_witness_marked_in_window, pause point in the "
-                  "loop); and read literally the bound also fails between the water marks (hysteresis, by design).  Two interleavings are exercised on the real code: a "
+                  "ALSO FIXED (/repo 588d777): the isMarked test and the rename were "
+                  "two steps, so an entry retrieved in between was removed (C14_witness_marked_in_window, now conditional on the old "
+                  "fact value); the loop now tests and renames under the mutex (facts: loop shape + the helper's lock/test/rename "
+                  "sequence) and C14_marked_before_rename_protected holds.  Still open, by design: read literally the bound also "
+                  "fails between the water marks (hysteresis).  Two interleavings are exercised on the real code: a "
                   "Store suspended at each of its operations while the cleaner runs, and entries retrieved while the cleaner is "
                   "suspended between its walk and its eviction loop, or between the loop's isMarked test of an entry and its "
                   "rename.  Rename / removal failures are in the model (rn, rm) but are not provoked on the real code.",
